@@ -10,7 +10,7 @@ ENGINE = "E-hyp"
 TECHNIQUE = "fuzzing with semantic oracle: prefixes/token mutations of valid inputs, grammar-generated hostile inputs and random bytes through six front-end entry points; oracle = terminates, no sanitizer report/exception, result-or-error-diagnostic, run-twice determinism; every prefix of the smallest seed files in the thorough tier; coverage-guided libFuzzer target (runner/fuzz_frontend.cpp, oracle inside the target, 20 s quick / 8 min thorough) whose artifacts are replayed through the same check"
 RULE = ("cases = (entry point, input) with entry in {preprocessor, SQF parser, config parser, compile, preprocess__, configparse__}; inputs are prefixes of the "
         "repository's test scripts/configs/preprocessor goldens, single-token mutations of them (delete/duplicate/swap/replace by a delimiter or directive), "
-        "hostile templates (unterminated string/comment/macro call/directive at end of input, self- and mutually-recursive macros, include cycles, nesting depth "
+        "hostile templates (number-like tokens with every part optional in value positions, unterminated string/comment/macro call/directive at end of input, self- and mutually-recursive macros, include cycles, nesting depth "
         "up to 3000) and random byte strings; non-trivial = the input is not accepted cleanly by its front end or ends inside a token/construct; "
         "distinct = SHA-1 of (entry, input)")
 LEVEL_TEXT = ("Exploration (fuzzing): each case must terminate within a budget far above linear time, produce a result or at least one error diagnostic, "
@@ -78,7 +78,16 @@ def _nest(depth, open_c, close_c, closed):
 
 @st.composite
 def _inputs(draw, seeds):
-    kind = draw(st.sampled_from(["prefix", "prefix", "mutate", "mutate", "hostile", "hostile", "nest", "bytes"]))
+    kind = draw(st.sampled_from(["prefix", "prefix", "mutate", "mutate", "hostile", "hostile", "nest", "bytes", "number"]))
+    if kind == "number":
+        # number-like tokens with every part optional (`.e3`, `1.e`, `0x`, `1e+`, `$`, `.5e-`, `1.2.3` ...) where a value is expected
+        if draw(st.integers(0, 3)) == 0:
+            tok = draw(st.sampled_from(["0x", "$"])) + draw(st.sampled_from(["", "1F", "G", "ffffffffff", "1.5", "e3"]))
+        else:
+            tok = (draw(st.sampled_from(["", "", "-", "+"])) + draw(st.sampled_from(["", "0", "1", "12", "999999999999"])) + draw(st.sampled_from(["", ".", ".", ".."]))
+                   + draw(st.sampled_from(["", "", "5", "05"])) + draw(st.sampled_from(["", "e", "E", "e", "f"])) + draw(st.sampled_from(["", "+", "-"])) + draw(st.sampled_from(["", "3", "99", "9999"])))
+        frame = draw(st.sampled_from(["_a = [1, %s];", "diag_log %s", "x = %s;", "a = %s;", "a[] = {1, %s};", "class A { v = %s; };", "%s", "#define N %s\nb = N;", "[%s, %s]"]))
+        return dict(kind=kind, input=frame.replace("%s", tok))
     if kind == "prefix":
         name, s = draw(st.sampled_from(seeds))
         n = draw(st.integers(0, len(s)))
@@ -229,7 +238,7 @@ def check(case, env):
 
 
 FUZZ_ENTRIES = {0: "preprocess", 1: "sqf", 2: "config"}
-FUZZ_DICT = ["#define ", "#include ", "#ifdef ", "#ifndef ", "#else", "#endif", "#undef ", "#line ", "__EVAL(", "__EXEC(", "__LINE__", "__FILE__", "__COUNTER__", "##", "/*", "*/", "//",
+FUZZ_DICT = ["#define ", "#include ", "#ifdef ", "#ifndef ", "#else", "#endif", "#undef ", "#line ", "__EVAL(", "__EXEC(", "__LINE__", "__FILE__", "__COUNTER__", "##", "/*", "*/", "//", ".e", "e+", "0x", "$", "1.",
              "class ", "delete ", "[] = {", "};", "private ", "params ", "call ", "then ", "else ", "exitWith ", "forEach ", "0x", "$", "1e9", "\\\n"]
 
 
